@@ -141,6 +141,42 @@ pub struct StreamsState {
     pub(super) streams_blocked: [bool; 2],
 }
 
+#[cfg(feature = "verif")]
+impl StreamsState {
+    /// Read-only snapshot for verification harnesses
+    pub(crate) fn verif_probe(&self) -> crate::connection::verif::VerifStreams {
+        let mut recv_buffered = 0;
+        let mut recv_allocated = 0;
+        for recv in self.recv.values().flatten() {
+            if let Some(r) = recv.as_open_recv() {
+                let (b, a) = r.assembler.verif_buffered();
+                recv_buffered += b;
+                recv_allocated += a;
+            }
+        }
+        crate::connection::verif::VerifStreams {
+            unacked_data: self.unacked_data,
+            send_window: self.send_window,
+            data_sent: self.data_sent,
+            max_data: self.max_data,
+            local_max_data: self.local_max_data,
+            data_recvd: self.data_recvd,
+            receive_window: self.receive_window,
+            stream_receive_window: self.stream_receive_window,
+            receive_window_shrink_debt: self.receive_window_shrink_debt,
+            next: self.next,
+            max: self.max,
+            max_remote: self.max_remote,
+            allocated_remote_count: self.allocated_remote_count,
+            next_remote: self.next_remote,
+            send_streams: self.send_streams,
+            recv_buffered,
+            recv_allocated,
+            map_sizes: (self.send.len(), self.recv.len()),
+        }
+    }
+}
+
 impl StreamsState {
     #[allow(unreachable_pub)] // fuzzing only
     pub fn new(
